@@ -434,7 +434,7 @@ class Session:
                                         reason="vacuous: hypotheses unsatisfiable", seconds=time.time() - t0)
                 rec = self._record(oid, "discharged", function=function, what=what, backend=backend,
                                    seconds=round(time.time() - t0, 3), solver_s=round(dt, 3), canary=canary, replay=replay,
-                                   n_assumptions=len(b), holes=[str(c) for c in combo] or None)
+                                   n_assumptions=len(b), holes=[str(c) for c in combo] or None, _hole_terms=list(combo))
                 if self.tier == "thorough":
                     st2, _, dt2 = _solve_cvc5(b + [z3.Not(g)], min(timeout_ms, 15_000))
                     rec["cvc5_recheck"] = st2
